@@ -1203,6 +1203,16 @@ class Evaluator:
             # let PAT = init else { diverges }
             scrut = v
             d = pat_desc(s["pat"])
+            if self.pe:
+                cf = self.fold(("matches", scrut, d))
+                if cf == ("lit", False):
+                    # the pattern is known not to match: only the (diverging) else block runs
+                    self.expr(s["els"])
+                    self.st = None
+                    return
+                if cf == ("lit", True):
+                    self._bind(s["pat"], v, self.st.env)
+                    return
             saved = self.st.copy()
             self._pc_push(("match", scrut, d, False, s.get("ln")))
             self.expr(s["els"])
@@ -2125,7 +2135,24 @@ class Evaluator:
         return self.expr(n["e"])
 
     def e_cast(self, n):
-        return self.expr(n["e"])
+        v = self.expr(n["e"])
+        w = v
+        while isinstance(w, tuple) and w and w[0] == "call" and isinstance(w[1], str) and w[1].rsplit("::", 1)[-1] in ("clone", "deref", "borrow") and len(w[2]) == 1:
+            w = w[2][0]
+        if isinstance(w, tuple) and w and w[0] == "ctor" and not w[2] and isinstance(w[1], str) and "::" in w[1] \
+                and str(n.get("ty", "")) in ("usize", "u8", "u16", "u32", "u64", "i32", "i64", "isize", "u128", "i128", "i8", "i16"):
+            # `Variant as usize` of a field-less enum without explicit discriminants is the position of the variant in the declaration
+            adt = self.eng.prog.adts.get(w[1].rsplit("::", 1)[0])
+            if adt and adt.get("kind") == "enum" and all(not x.get("fields") and x.get("explicit_discr") is False for x in adt.get("variants", [])):
+                names = [x["name"] for x in adt["variants"]]
+                vn = w[1].rsplit("::", 1)[1]
+                if vn in names:
+                    return ("lit", Int(names.index(vn)))
+        sty = str((n.get("e") or {}).get("ty", "")).lstrip("&").strip()
+        adt = self.eng.prog.adts.get(sty)
+        if adt and adt.get("kind") == "enum" and all(not x.get("fields") for x in adt.get("variants", [])):
+            return ("call", "#discriminant:" + sty, (v,))       # the value is the variant's number, not the variant
+        return v
 
     def e_field(self, n):
         return mk_field(self.expr(n["e"]), n["name"])
@@ -2141,6 +2168,8 @@ class Evaluator:
         if "HashMap<" in ety or "BTreeMap<" in ety:
             # `map[key]` is `map.get(key).unwrap()` (same value, same panic)
             return ("proj", ("call", "#map::get", (b, i)), "std::prelude::v1::Some", 0)
+        if b[0] == "array" and i[0] == "lit" and (isinstance(i[1], Int) or type(i[1]) is int) and 0 <= int(i[1]) < len(b[1]):
+            return b[1][int(i[1])]           # a known element of a literal table
         return ("index", b, i)
 
     def e_struct(self, n):
